@@ -65,6 +65,8 @@ func family(r *rand.Rand, o NameOpts) []string {
 	if !o.Space {
 		inner = []string{"x", "y", "main.go", "sub/f", "sub/g", "z-last", "a.b", "X", "Main.go", "Sub/f"}
 	}
+	// echoes: the directory's own name again beneath it, as a whole component and as the beginning of one
+	inner = append(inner, D, D+"x.c", "sub/sub", "sub/subway.c", "sub/x/sub", D+"/"+D)
 	var out []string
 	nIn := 1 + r.IntN(3)
 	for i := 0; i < nIn; i++ {
@@ -297,7 +299,7 @@ func Message(r *rand.Rand, counter int) (string, string) {
 func Identity(r *rand.Rand) (name, email, class string) {
 	names := []struct{ n, c string }{
 		{"Alice", "plain"}, {"Alice B. Carol", "spaces"}, {"José Núñez", "non-ascii"}, {"山田 太郎", "non-ascii"},
-		{"O'Neil", "quote"}, {"a>b", "gt"}, {"Mr 100% X", "percent"}, {"Ann  Lee", "double-space"}, {"a   b  c", "double-space"}, {"%s %d", "percent-verbs"}, {"Dr. X (PhD)", "paren"}, {"x=y", "equals"}, {"#1 dev", "hash"}, {"[bot]", "bracket"},
+		{"O'Neil", "quote"}, {"a>b", "gt"}, {"Q> A team", "gt-space"}, {"a > b > c", "gt-space"}, {"x>", "gt"}, {"> lead", "gt-space"}, {"Mr 100% X", "percent"}, {"Ann  Lee", "double-space"}, {"a   b  c", "double-space"}, {"%s %d", "percent-verbs"}, {"Dr. X (PhD)", "paren"}, {"x=y", "equals"}, {"#1 dev", "hash"}, {"[bot]", "bracket"},
 	}
 	emails := []string{"a@example.com", "first.last@sub.example.org", "x_y+tag@a-b.co", "u@d.io", "A.B-c@x1.y2.museum"}
 	n := pick(r, names)
